@@ -228,6 +228,8 @@ def grid(ctx):
     exps = set(range(dec.ETINY, dec.ETOP + 1, step)) | set(range(-45, 46)) | {dec.ETINY, dec.ETINY + 1, dec.ETOP - 1, dec.ETOP}
     off = ctx.seed % step
     exps |= set(range(dec.ETINY + off, dec.ETOP + 1, step))
+    # every exponent near zero: the printed plain text then takes every length from 1 to about 1100 characters (each is read back)
+    exps |= set(range(-1100, 1101))
     for e in sorted(exps):
         for n in lens:
             for tz in (False, True):
